@@ -104,6 +104,8 @@ template <class C> void Exec<C>::exec_parse(int i, const Op& op, OpOut& o) {
     MgrInst& m = mgr_of(op.mgr);
     int entry = op.entry < 0 ? 0 : op.entry % 6;
     if (m.kind != MK_LIBC) entry = 5;
+    // a NUL inside the range is legal input for the ranged entry points only: the NUL-terminated ones would see a shorter text
+    if (op.text.find('\0') != std::string::npos && (entry == 1 || entry == 2 || entry == 4)) entry = entry == 1 ? 0 : 3;
     bool need_nul = entry == 1 || entry == 2 || entry == 4;
     USlot& sl = us[d];
 
@@ -346,7 +348,17 @@ template <class C> void Exec<C>::exec_tostring(int i, const Op& op, OpOut& o) {
         if (req < 0 || req > (1 << 22)) { violate(V_SIZE_CONTRACT, "chars-required returned " + std::to_string(req), false); return; }
         if (op.cap == CAP_ALL) {
             int n = 0;
-            for (int cap = -2; cap <= req + 3 && !g.abort_run; cap++)
+            // every capacity; for long texts (rare) both ends and 64 seeded capacities in between
+            std::vector<int> caps;
+            if (req <= 256) for (int cap = -2; cap <= req + 3; cap++) caps.push_back(cap);
+            else {
+                std::set<int> cs; Rng cr(plan.run_seed ^ (unsigned long long)(i * 7919 + 13));
+                for (int k = -2; k <= 10; k++) cs.insert(k);
+                for (int k = req - 10; k <= req + 3; k++) cs.insert(k);
+                for (int k = 0; k < 64; k++) cs.insert(cr.range(0, req));
+                caps.assign(cs.begin(), cs.end());
+            }
+            for (int cap : caps)
                 for (int w = 0; w < 2 && !g.abort_run; w++) {
                     std::string t; int r2 = 0;
                     if (!tostring_cap(i, u, cap, w != 0, req, &t, &r2)) { o.aborted = true; o.note = "cap=" + std::to_string(cap) + " written=" + std::to_string(w); return; }
@@ -504,7 +516,14 @@ template <class C> void Exec<C>::exec_query(int i, const Op& op, OpOut& o) {
             int hi = op.cap == CAP_ALL ? required + 2 : lo;
             // true length is only known after a successful compose; do the ample one first
             std::vector<int> caps; caps.push_back(required + 1);
-            for (int c = lo; c <= hi; c++) if (c != required + 1) caps.push_back(c);
+            if (hi - lo <= 260) { for (int c = lo; c <= hi; c++) if (c != required + 1) caps.push_back(c); }
+            else {   // long list (rare): both ends and 64 seeded capacities in between
+                std::set<int> cs; Rng cr(plan.run_seed ^ (unsigned long long)(i * 7919 + 17));
+                for (int k = lo; k <= lo + 10; k++) cs.insert(k);
+                for (int k = hi - 12; k <= hi; k++) cs.insert(k);
+                for (int k = 0; k < 64; k++) cs.insert(cr.range(lo, hi));
+                for (int c : cs) if (c != required + 1) caps.push_back(c);
+            }
             int truelen = -1, ncalls = 0;
             for (int cap : caps) {
                 for (int w = 0; w < (op.cap == CAP_ALL ? 2 : 1) && !g.abort_run; w++) {
